@@ -322,6 +322,61 @@ def check_symbolic_panic_code(ctx):
                     {"kind": "symbolic-panic-code"})
 
 
+def check_loop_warning_repeat(ctx):
+    """several tests with the SAME signature `check_loop(uint256)` cut by the same --loop bound in ONE process (two contracts, then
+    the first contract again with the other solver; nothing resets halmos' process-wide state in between, as under `_main`):
+    every PASS that misses the reachable failure (n & 7 == 5, on the reference EVM) must carry its own loop-bound warning."""
+    import contextlib
+
+    from vlib import artifacts
+    from vlib.artifacts import Fn, TestContract, run_contract_offline
+
+    rng = random.Random(3)
+    grammar = e2e.Grammar(rng)
+
+    def mk(name, shape):
+        chk = e2e.gen_loop_check(rng, 0, grammar)
+        chk.shape, chk.k, chk.loop_bound, chk.kind, chk.atoms, chk.params, chk.witness = shape, 5, 2, "panic", chk.atoms[:1], chk.params[:1], [5]
+        chk.atoms = [e2e.Bin("EQ", e2e.Bin("AND", e2e.Arg(0), e2e.Const(7)), e2e.Const(5))]
+        chk.name = "check_loop"
+        return TestContract(name, [Fn("check_loop(uint256 n)", chk.body())]), chk
+
+    c1, k1 = mk("LoopA", "dowhile")
+    c2, k2 = mk("LoopB", "while")
+    batch = e2e.RefBatch()
+    idx = []
+    for c, chk in ((c1, k1), (c2, k2)):
+        batch.world(c)
+        idx.append(batch.call(e2e.FOUNDRY_TEST, e2e.calldata("check_loop(uint256)", chk.params, [5])))
+    batch.run(ctx)
+    if not all(batch.outcome(i).fails() for i in idx):
+        raise RuntimeError("check_loop(5) does not fail on the reference EVM")
+    solvers = _solver_cmds()
+    runs = [("LoopA", c1, solvers[0]), ("LoopB", c2, solvers[0]), ("LoopA", c1, solvers[-1]), ("LoopB", c2, solvers[-1])]
+    orig = artifacts.reset_halmos_state
+    first = True
+    try:
+        for pos, (nm, c, (sname, cmd)) in enumerate(runs):
+            # the first run starts from a clean process state; afterwards nothing is reset
+            artifacts.reset_halmos_state = orig if first else (lambda: None)
+            first = False
+            run = run_contract_offline(c, solver_command=cmd, loop=2, solver_timeout_assertion="4000ms")
+            r = run.by_name.get("check_loop(uint256)")
+            verdict = VERDICT.get(r.exitcode, str(r.exitcode)) if r is not None else "MISSING"
+            warned = any("loop unrolling bound" in m for m in run.warnings) or "loop unrolling bound" in run.stdout
+            ctx.case(f"loop-warning-repeat|{pos}|{nm}|{sname}")
+            ctx.count(f"loop-warning-repeat:run{pos}:{verdict}:{'warned' if warned else 'silent'}")
+            if verdict == "PASS" and not warned:
+                ctx.violation(
+                    "pass-without-loop-bound-warning|same-signature-repeated-in-process",
+                    f"{nm}.check_loop(uint256) (run {pos + 1} of {len(runs)} in one process, {sname}, --loop 2): PASS with no loop-bound "
+                    f"warning (num_bounded_loops={r.num_bounded_loops}) although n = 5 ends in Panic(1) on the reference EVM; the "
+                    f"earlier runs of the same signature were {[x[0] for x in runs[:pos]]}", {"kind": "loop-warning-repeat"})
+    finally:
+        artifacts.reset_halmos_state = orig
+        artifacts.reset_halmos_state()
+
+
 def harvest_pool():
     from vlib import solvekit as K
 
@@ -351,6 +406,7 @@ def correspond(ctx):
         return all_combos
 
     check_symbolic_panic_code(ctx)
+    check_loop_warning_repeat(ctx)
     specs = []
     # corpus first
     cdir = VERIF / "corpus" / "C03"
@@ -425,6 +481,9 @@ def correspond(ctx):
 
 
 def replay(ctx, data) -> bool:
+    if data.get("kind") == "loop-warning-repeat":
+        check_loop_warning_repeat(ctx)
+        return bool(ctx.violations)
     if data.get("kind") == "symbolic-panic-code":
         check_symbolic_panic_code(ctx)
         return bool(ctx.violations)
